@@ -240,7 +240,10 @@ def parent_main(args, seed):
     for ln in lines:
         print(ln)
     sys.stdout.flush()
-    outdir = os.path.join(ROOT, ".out", args.prop, args.tier)
+    # one scratch directory per run: two runs of the same check (e.g. at
+    # different seeds) must not share shard result files
+    outdir = os.path.join(ROOT, ".out", args.prop,
+                          "%s-%d" % (args.tier, os.getpid()))
     os.makedirs(outdir, exist_ok=True)
     known_path = os.path.join(outdir, "active_known.json")
     with open(known_path, "w") as f:
@@ -252,6 +255,9 @@ def parent_main(args, seed):
             jobs.append((lg.name, i, n))
     # longest legs first so the pool drains evenly
     results, errors = run_jobs(args, seed, jobs, outdir, known_path)
+    if not errors and not os.environ.get("VERIF_KEEP_OUT"):
+        import shutil
+        shutil.rmtree(outdir, ignore_errors=True)
     dumps = [a.dump() for a in accts.values()] + [r["account"] for r in results]
     merged = merge_accounts(dumps)
     failures += [r["failure"] for r in results if r["failure"]]
